@@ -8,6 +8,7 @@ Driver for C15 (allocation failure).
 -/
 import AsmjitVerif.Spec.Fault
 import AsmjitVerif.Model.FaultPool
+import AsmjitVerif.Model.FaultBuilder
 import Driver.Common
 namespace Driver.C15
 open AsmjitVerif AsmjitVerif.Fault Driver
@@ -60,6 +61,8 @@ def parseOp (w : List String) : Option Op :=
   | ["unfix"] => some .freeFixup
   | ["addr", a] => (parseHex? a).map .addAddr
   | ["emit", s, n] => do let s ← s.toNat?; let n ← n.toNat?; some (.emit s n)
+  | ["inst", s, k] => do let s ← s.toNat?; let k ← k.toNat?; some (.inst s k)
+  | ["jmpf", s] => s.toNat?.map .jmpf
   | ["vapp", x] => x.toNat?.map .vappend
   | ["vres", n] => n.toNat?.map .vreserve
   | ["sapp", n, c] => do let n ← n.toNat?; let c ← c.toNat?; some (.sappend n c)
@@ -71,6 +74,9 @@ structure DS where
   st : St := St.init
   pool : FaultPool.FPool := {}
   /-- monitor of `padd`: the last pool dump of the implementation and the constants added so far with their offsets -/
+  bst : FaultBuilder.BSt := {}
+  /-- monitor of the Builder lines: the spec's view -/
+  bsv : FaultBuilder.BView := {}
   lastPool : String := "P=0:0:0:- G="
   consts : List (List Nat × Nat) := []
   /-- monitor: the spec's view, equal to the implementation's last dump -/
@@ -198,15 +204,93 @@ def monRun (w : List String) : String :=
     (if !(r.fresh == r.clean && r.fexec == r.cexec) then "fresh objects do not reproduce the failure-free output;" else "") ++
     (if r.strictRetry && !(r.errOk && r.out == r.clean) then "repeating the failed call did not produce the failure-free code;" else "")
 
+/-! ### BaseBuilder lines -/
+
+def renderNode : FaultBuilder.Node → String
+  | .section i => s!"S{i}"
+  | .inst k c => s!"I{k}" ++ (if c then "c" else "")
+  | .label i => s!"L{i}"
+  | .align n => s!"A{n}"
+  | .data n => s!"D{n}"
+  | .elabel i => s!"E{i}"
+  | .comment n => s!"C{n}"
+
+def renderBView (v : FaultBuilder.BView) : String :=
+  "N=" ++ joinC (v.nodes.map renderNode) ++ s!" LC={v.labelCount}"
+
+def renderBCaps (c : FaultBuilder.BCaps) : String :=
+  s!"C={c.labCap},{c.lnCap} LN=" ++ String.join (c.lnodes.map fun b => if b then "1" else "0")
+
+def bErrName : Err → String
+  | .ok => "ok" | .oom => "OutOfMemory" | .invalidArgument => "InvalidLabel" | .invalidState => "LabelAlreadyBound"
+  | e => errName e
+
+def parseBOp (w : List String) : Option FaultBuilder.BOp :=
+  match w with
+  | ["emit", k, c] => do let k ← k.toNat?; let c ← c.toNat?; some (.emit k (c != 0))
+  | ["newlabel"] => some .newLabel
+  | ["clabel"] => some .codeLabel
+  | ["bind", l] => l.toNat?.map .bind
+  | ["align", n] => n.toNat?.map .align
+  | ["embed", n] => n.toNat?.map .embed
+  | ["elabel", l] => l.toNat?.map .embedLabel
+  | ["comment", n] => n.toNat?.map .comment
+  | _ => none
+
+def bModelStep (d : DS) (w : List String) : DS × String :=
+  match w with
+  | ["reset"] => ({ d with bst := {} }, s!"ok n=0 | {renderBView ({} : FaultBuilder.BView)} | {renderBCaps {}}")
+  | mask :: rest =>
+    match parseHex? mask, parseBOp rest with
+    | some m, some op =>
+      let o := oracleOfMask m
+      let (o', s', e) := FaultBuilder.bstep op o d.bst
+      ({ d with bst := s' }, s!"{bErrName e} n={o.length - o'.length} | {renderBView s'.v} | {renderBCaps s'.c}" ++
+        (if s'.corrupt then " CORRUPT" else ""))
+    | _, _ => (d, "bad-op")
+  | _ => (d, "bad-op")
+
+/-- monitor of a Builder call: out of memory => the node list is unchanged and at most one label id was used up (only by
+`newlabel`); otherwise the failure-free effect, except that a comment that could not be duplicated may be dropped -/
+def bMonStep (d : DS) (w : List String) (impl : String) : DS × String :=
+  match impl.splitOn " | " with
+  | [h, view, _] =>
+    let err := (words h).headD ""
+    match w with
+    | ["reset"] => if view == renderBView {} then ({ d with bsv := {} }, "good") else (d, "BAD reset state")
+    | _ :: rest =>
+      match parseBOp rest with
+      | none => (d, "BAD bad-op")
+      | some op =>
+        if err == "OutOfMemory" then
+          if view == renderBView d.bsv then (d, "good")
+          else
+            let leaked := { d.bsv with labelCount := d.bsv.labelCount + 1 }
+            if op == .newLabel && view == renderBView leaked then ({ d with bsv := leaked }, "good")
+            else (d, "BAD out-of-memory answer but the node list changed")
+        else
+          let (v', e') := FaultBuilder.bspec op d.bsv
+          let alt : FaultBuilder.BView := match op with
+            | .emit k true => { d.bsv with nodes := d.bsv.nodes ++ [.inst k false] }
+            | _ => v'
+          if bErrName e' != err then (d, s!"BAD answer {err}, the failure-free answer is {bErrName e'}")
+          else if view == renderBView v' then ({ d with bsv := v' }, "good")
+          else if view == renderBView alt then ({ d with bsv := alt }, "good")
+          else ({ d with bsv := v' }, "BAD state after the call differs from the failure-free effect")
+    | _ => (d, "BAD bad-op")
+  | _ => (d, "BAD unparsable answer")
+
 def stepLine (d : DS) (line : String) : DS × String :=
   match line.splitOn " => " with
   | [l, impl] =>
     match words l with
     | "m" :: rest => monStep d rest impl
+    | "mb" :: rest => bMonStep d rest impl
     | _ => (d, "bad-op")
   | _ =>
     match words line with
     | "o" :: rest => modelStep d rest
+    | "b" :: rest => bModelStep d rest
     | "run" :: rest => (d, monRun rest)
     | _ => (d, "bad-op")
 
